@@ -141,15 +141,30 @@ class Seg11Harness:
             pool = httpcore.ConnectionPool(network_backend=w.backend)
             w.roots.append(pool)
 
+            def probe(r):
+                # the body has been consumed: iterating the stream again must be refused, reading again hands out the same bytes
+                out_ = []
+                try:
+                    out_.append(("chunks", b"".join(list(r.iter_stream()))))
+                except Exception as e_:
+                    out_.append(("raised", exc_class(e_)))
+                try:
+                    out_.append(("content", r.read()))
+                except Exception as e_:
+                    out_.append(("raised", exc_class(e_)))
+                got["afterwards"] = out_
+
             def prog():
                 if self.consume == "request":
                     r = pool.request(method, url)
                     got.update(status=r.status, headers=r.headers, ext=r.extensions, body=r.content)
+                    probe(r)
                 elif self.consume == "read":
                     with pool.stream(method, url) as r:
                         got.update(status=r.status, headers=r.headers, ext=r.extensions)
                         try:
                             got["body"] = r.read()
+                            probe(r)
                         except Exception:
                             # the body could not be read: what does the response object hand out afterwards?
                             try:
@@ -169,15 +184,29 @@ class Seg11Harness:
             pool = httpcore.AsyncConnectionPool(network_backend=w.backend)
             w.roots.append(pool)
 
+            async def aprobe(r):
+                out_ = []
+                try:
+                    out_.append(("chunks", b"".join([c_ async for c_ in r.aiter_stream()])))
+                except Exception as e_:
+                    out_.append(("raised", exc_class(e_)))
+                try:
+                    out_.append(("content", await r.aread()))
+                except Exception as e_:
+                    out_.append(("raised", exc_class(e_)))
+                got["afterwards"] = out_
+
             async def aprog():
                 if self.consume == "request":
                     r = await pool.request(method, url)
                     got.update(status=r.status, headers=r.headers, ext=r.extensions, body=r.content)
+                    await aprobe(r)
                 elif self.consume == "read":
                     async with pool.stream(method, url) as r:
                         got.update(status=r.status, headers=r.headers, ext=r.extensions)
                         try:
                             got["body"] = await r.aread()
+                            await aprobe(r)
                         except Exception:
                             try:
                                 got["after_error"] = ("content", r.content)
@@ -239,7 +268,13 @@ class Seg11Harness:
                 viol("body", f"body {got.get('body')!r} != {exp_body!r}")
             if self.consume == "stream" and b"".join(collected) != got.get("body"):
                 viol("body", "chunks do not concatenate to body")
-            ex.outcome = f"ok:{truth['status']}:trunc={bool(died)}"
+            aw = got.get("afterwards")
+            if aw is not None:
+                if aw[0] != ("raised", "builtins.RuntimeError"):
+                    viol("body-delivered-twice", f"iterating the stream of a response whose body was already read gave {aw[0]} instead of being refused")
+                if aw[1] != ("content", got.get("body")):
+                    viol("body", f"reading the response a second time gave {aw[1]}, the first time {got.get('body')!r}")
+            ex.outcome = f"ok:{truth['status']}:trunc={bool(died)}:after={aw}"
             return ex
         # exception
         e = res[1]
